@@ -137,7 +137,8 @@ void ThreePointsNumericalDerivative::updateDerivatives(const ParameterList& para
 
     if (computeCrossD2_)
     {
-      string lastVar1, lastVar2;
+      // Parameters of function_ still displaced by the previous probes, to be reset with the next ones:
+      string lastVar1 = lastVar, lastVar2 = lastVar;
       for (unsigned int i = 0; i < variables_.size(); i++)
       {
         string var1 = variables_[i];
@@ -157,17 +158,15 @@ void ThreePointsNumericalDerivative::updateDerivatives(const ParameterList& para
           vector<string> vars(2);
           vars[0] = var1;
           vars[1] = var2;
-          if (i > 0 && j > 0)
-          {
-            if (lastVar1 != var1 && lastVar1 != var2)
-              vars.push_back(lastVar1);
-            if (lastVar2 != var1 && lastVar2 != var2)
-              vars.push_back(lastVar2);
-          }
+          if (lastVar1 != var1 && lastVar1 != var2)
+            vars.push_back(lastVar1);
+          if (lastVar2 != var1 && lastVar2 != var2 && lastVar2 != lastVar1)
+            vars.push_back(lastVar2);
           p = parameters.createSubList(vars);
 
-          double value1 = function_->getParameterValue(var1);
-          double value2 = function_->getParameterValue(var2);
+          // The point of interest (function_ may still be displaced for these parameters):
+          double value1 = p[0].getValue();
+          double value2 = p[1].getValue();
           double h1 = (1. + std::abs(value1)) * h_;
           double h2 = (1. + std::abs(value2)) * h_;
 
@@ -214,7 +213,7 @@ void ThreePointsNumericalDerivative::updateDerivatives(const ParameterList& para
     if (function2_)
       function2_->enableSecondOrderDerivatives(computeD2_);
     if (functionChanged)
-      function_->setParameters(parameters.createSubList(lastVar));
+      function_->setParameters(computeCrossD2_ ? parameters : parameters.createSubList(lastVar));
   }
   else
   {
